@@ -16,7 +16,7 @@ for p in props:
             'evidence_file': f'evidence/{pid}.json',
             'replay_cmd_template': f'./check {pid} --replay {{path}}',
             'engine': 'pyvc',
-            'level_claimed': {'category': 'proof', 'text': c['text'], 'design_ref': c.get('design_ref', f'DESIGN.md section 3 {pid}')},
+            'level_claimed': {'category': c.get('category', 'proof'), 'text': c['text'], 'design_ref': c.get('design_ref', f'DESIGN.md section 3 {pid}')},
             'level_note': c['note'],
             'technique': c['technique'],
         })
